@@ -887,50 +887,48 @@ Proof.
     destruct Epx as [x [Epx Hx]]. rewrite Epx.
     split.
     + destruct (f_neg l); reflexivity.
-    + replace (if f_neg l
-               then tl (sign_chars (f_neg l) ++ [48; x] ++ ic ++ frac_part fo ++ exp_part_chars true (with_p0 eo))
-               else sign_chars (f_neg l) ++ [48; x] ++ ic ++ frac_part fo ++ exp_part_chars true (with_p0 eo))
-        with (48 :: x :: ic ++ frac_part fo ++ exp_part_chars true (with_p0 eo)) by (destruct (f_neg l); reflexivity).
-      unfold go_parse_float_parts.
-      change (48 =? c_minus) with false. change (48 =? c_plus) with false. cbv iota.
-      rewrite Eic. cbn [app]. rewrite Hx. change ((48 =? 48) && (120 =? 120)) with true. cbv iota.
-      cbn [skipn]. rewrite <- Eic.
-      change (d0 :: ir ++ frac_part fo ++ exp_part_chars true (with_p0 eo))
-        with ((d0 :: ir) ++ frac_part fo ++ exp_part_chars true (with_p0 eo)). rewrite <- Eic.
-      rewrite (scan_float_clean true true ic fo (with_p0 eo) Hne Hic Hfo).
-      * rewrite exp_part_val_p0. reflexivity.
-      * destruct eo as [[[? ?] ?]|]; [exact Heo | reflexivity].
-      * intros _. destruct eo as [[[? ?] ?]|]; discriminate.
+    + assert (G : go_parse_float_parts (48 :: x :: ic ++ frac_part fo ++ exp_part_chars true (with_p0 eo))
+                  = Some (false, true,
+                          chars_val (fbase true) (ic ++ match fo with Some f => f | None => [] end) 0,
+                          (exp_part_val eo - Z.of_nat (length match fo with Some f => f | None => [] end) * 4)%Z)).
+      { unfold go_parse_float_parts.
+        change (48 =? c_minus) with false. change (48 =? c_plus) with false. cbv iota.
+        rewrite Eic. cbn [app]. rewrite Hx. change ((48 =? 48) && (120 =? 120)) with true. cbv iota.
+        cbn [skipn].
+        change (d0 :: ir ++ frac_part fo ++ exp_part_chars true (with_p0 eo))
+          with ((d0 :: ir) ++ frac_part fo ++ exp_part_chars true (with_p0 eo)). rewrite <- Eic.
+        rewrite (scan_float_clean true true ic fo (with_p0 eo) Hne Hic Hfo).
+        * rewrite exp_part_val_p0. rewrite Eic. reflexivity.
+        * destruct eo as [[[? ?] ?]|]; [exact Heo | reflexivity].
+        * intros _. destruct eo as [[[? ?] ?]|]; discriminate. }
+      destruct (f_neg l); cbn [sign_chars app tl]; exact G.
   - (* decimal *)
     cbn [app]. cbn [fdigit] in Hic.
     assert (Hd0 : is_dec d0 = true) by (rewrite Eic in Hic; cbn [forallb] in Hic; apply andb_true_iff in Hic; tauto).
     split.
     + destruct (f_neg l); [reflexivity|]. rewrite Eic. cbn [sign_chars app is_neg_text].
       unfold is_dec, c_minus in *. lia.
-    + replace (if f_neg l
-               then tl (sign_chars (f_neg l) ++ ic ++ frac_part fo ++ exp_part_chars false eo)
-               else sign_chars (f_neg l) ++ ic ++ frac_part fo ++ exp_part_chars false eo)
-        with (ic ++ frac_part fo ++ exp_part_chars false eo) by (destruct (f_neg l); reflexivity).
-      unfold go_parse_float_parts.
-      assert (E0 : exists rr, ic ++ frac_part fo ++ exp_part_chars false eo = d0 :: rr
-                              /\ rr = ir ++ frac_part fo ++ exp_part_chars false eo)
-        by (rewrite Eic; cbn [app]; eauto).
-      destruct E0 as [rr [E0 Err]]. rewrite E0.
-      replace (d0 =? c_minus) with false by (unfold is_dec, c_minus in *; lia).
-      replace (d0 =? c_plus) with false by (unfold is_dec, c_plus in *; lia).
-      assert (Hnh : match rr with
-                    | c :: _ :: _ => (d0 =? 48) && (lower c =? 120)
-                    | _ => false
-                    end = false).
-      { destruct rr as [|c2 r2]; [reflexivity|]. destruct r2; [reflexivity|].
-        symmetry in Err. rewrite Eic in Hic. pose proof (dec_second_char d0 ir fo eo c2 _ Hic Err). lia. }
-      assert (Hnh' : match d0 :: rr with
-                     | z :: c :: _ :: _ => (z =? 48) && (lower c =? 120)
-                     | _ => false
-                     end = false) by (destruct rr as [|c2 [|c3 r3]]; [reflexivity | reflexivity | exact Hnh]).
-      rewrite Hnh'. rewrite <- E0.
-      rewrite (scan_float_clean false false ic fo eo Hne Hic Hfo Heo) by discriminate.
-      reflexivity.
+    + assert (G : go_parse_float_parts (ic ++ frac_part fo ++ exp_part_chars false eo)
+                  = Some (false, false,
+                          chars_val (fbase false) (ic ++ match fo with Some f => f | None => [] end) 0,
+                          (exp_part_val eo - Z.of_nat (length match fo with Some f => f | None => [] end) * 1)%Z)).
+      { unfold go_parse_float_parts.
+        assert (E0 : exists rr, ic ++ frac_part fo ++ exp_part_chars false eo = d0 :: rr
+                                /\ rr = ir ++ frac_part fo ++ exp_part_chars false eo)
+          by (rewrite Eic; cbn [app]; eauto).
+        destruct E0 as [rr [E0 Err]]. rewrite E0.
+        replace (d0 =? c_minus) with false by (unfold is_dec, c_minus in *; lia).
+        replace (d0 =? c_plus) with false by (unfold is_dec, c_plus in *; lia).
+        assert (Hnh' : match d0 :: rr with
+                       | z :: c :: _ :: _ => (z =? 48) && (lower c =? 120)
+                       | _ => false
+                       end = false).
+        { destruct rr as [|c2 [|c3 r3]]; [reflexivity | reflexivity |].
+          symmetry in Err. rewrite Eic in Hic. pose proof (dec_second_char d0 ir fo eo c2 _ Hic Err). lia. }
+        rewrite Hnh'. rewrite <- E0.
+        rewrite (scan_float_clean false false ic fo eo Hne Hic Hfo Heo) by discriminate.
+        reflexivity. }
+      destruct (f_neg l); cbn [sign_chars app tl]; exact G.
 Qed.
 
 (* ------------------------------------------------------------------ *)
@@ -962,8 +960,15 @@ Section FloatElemProofs.
     assert (Hs : strip_us (render_float l) <> []).
     { rewrite (strip_render_float l Hok). unfold fl_ic, dseq_chars.
       destruct (sign_chars (f_neg l)), (fl_pfx l); cbn [app]; discriminate. }
-    destruct (strip_us (render_float l)) as [|s0 sr] eqn:Es; [congruence|].
-    rewrite Hneg, Hparse. cbn [xorb]. rewrite xorb_false_r.
+    assert (Hm : forall (A : Type) (e y : A),
+               match strip_us (render_float l) with [] => e | _ :: _ => y end = y).
+    { intros A e y. destruct (strip_us (render_float l)); [congruence | reflexivity]. }
+    rewrite Hm. cbv zeta. rewrite Hneg.
+    match goal with
+    | |- match ?g with _ => _ end = _ =>
+      replace g with (Some (false, f_hex l, float_mant l, float_exp l)) by (symmetry; exact Hparse)
+    end.
+    rewrite xorb_false_r.
     unfold float_elem_bits, spec_float_elem, is_float_zero.
     rewrite (big_underflows_bounded _ _ Hexp), andb_false_r, orb_false_r.
     destruct Hbits as [-> | ->]; reflexivity.
